@@ -688,3 +688,88 @@ class get_token_at_offset_c:
 
 REG.add('sqlparse.sql.TokenList.get_token_at_offset', 'body', get_token_at_offset_c)
 REG['sqlparse.sql.TokenList.flatten'] = _FlattenModel
+
+
+# --------------------------------------------------------------------------------- read-only accessors: totality (C07)
+
+def _total(q, requires=(), loops=None, extra=None, params=None, case='total'):
+    """`raises = []` for a read-only accessor on an arbitrary well-formed node (children non-empty, values non-empty)"""
+    ns = {'__doc__': _total.__doc__, 'exec_class': HeapExec, 'params': params or {'self': make_identifier_any},
+          'requires': list(requires), 'ensures': [], 'raises': [], 'loops': loops or {}, 'serves': ['C07']}
+    ns.update(extra or {})
+    REG.add(q, case, type('total_' + q.rsplit('.', 1)[1], (), ns))
+    return (q, case)
+
+
+def make_identifier_any(ex, st):
+    g = make_group(ex, st, 'self')
+    for it in st.lists[st.objs[g.oid]['tokens'].lid]:
+        if it[0] == 'seg':
+            ex.segs(st)[it[1]]['uni']['__values_nonempty__'] = True
+    return g
+
+
+def make_function_node(ex, st):
+    g = make_identifier_any(ex, st)
+    st.assume(st.objs[g.oid]['CLS'] == ex.W.cls_const[ex.W.sql.Function])
+    return g
+
+
+class _StrOrNone:
+    """call-site form of the name accessors (verified for totality under the case `total`): no effect, returns a str or
+    None"""
+
+    @staticmethod
+    def model(ex, self_val, args, kw, st):
+        s_none = st.fork()
+        return [(s_none, None), (st, fresh_str('name'))]
+
+
+for _q in ('sqlparse.sql.TokenList._get_first_name', 'sqlparse.sql.NameAliasMixin.get_real_name',
+           'sqlparse.sql.TokenList.get_name', 'sqlparse.sql.NameAliasMixin.get_alias'):
+    REG[_q] = _StrOrNone
+
+
+class _OpaqueGenerator:
+    """call-site form of a read-only generator method (get_identifiers, get_sublists ...): an opaque iterable"""
+
+    @staticmethod
+    def model(ex, self_val, args, kw, st):
+        return [(st, Opaque('generator', self_val))]
+
+
+REG['sqlparse.sql.IdentifierList.get_identifiers'] = _OpaqueGenerator
+
+
+def _opt_int(name):
+    def mk(ex, st):
+        # None or a non-negative index (the callers pass a position returned by token_next_by, or nothing)
+        return SInt(z3.Int('in_' + name))
+    return mk
+
+
+ACCESSOR_TOTAL = [
+    _total('sqlparse.sql.TokenList._get_first_name', params={
+        'self': make_identifier, 'idx': _opt_int('idx'), 'reverse': lambda ex, st: SBool(z3.Bool('in_reverse')),
+        'keywords': lambda ex, st: SBool(z3.Bool('in_keywords')), 'real_name': lambda ex, st: SBool(z3.Bool('in_real_name'))},
+        loops={'0': {'arbitrary': True}}),
+    _total('sqlparse.sql.TokenList._get_first_name', params={
+        'self': make_identifier, 'idx': lambda ex, st: None, 'reverse': lambda ex, st: SBool(z3.Bool('in_reverse')),
+        'keywords': lambda ex, st: SBool(z3.Bool('in_keywords')), 'real_name': lambda ex, st: SBool(z3.Bool('in_real_name'))},
+        loops={'0': {'arbitrary': True}}, case='total, idx=None'),
+    _total('sqlparse.sql.Identifier.is_wildcard'),
+    _total('sqlparse.sql.Identifier.get_typecast'),
+    _total('sqlparse.sql.Identifier.get_ordering'),
+    _total('sqlparse.sql.Comparison.left', extra={'ensures': ['result is self.tokens[0]']}),
+    _total('sqlparse.sql.Comparison.right', extra={'ensures': ['result is self.tokens[len(self.tokens) - 1]']}),
+    _total('sqlparse.sql.Function.get_window'),
+    _total('sqlparse.sql.TokenList.has_alias', params={'self': make_identifier},
+           extra={'ensures': ['result == True or result == False']}),
+    _total('sqlparse.sql.TokenList.get_name', params={'self': make_identifier},
+           extra={'ensures': ['result is None or len(result) >= 0']}),
+    _total('sqlparse.sql.NameAliasMixin.get_alias', params={'self': make_identifier}),
+    _total('sqlparse.sql.NameAliasMixin.get_real_name', params={'self': make_identifier}),
+    # get_parameters needs the shape F of a Function node: it has a Parenthesis child (established by group_functions)
+    _total('sqlparse.sql.Function.get_parameters', params={'self': make_function_node},
+           requires=['self.token_next_by(i=Parenthesis)[1] is not None']),
+]
